@@ -217,17 +217,22 @@ def body(ctx):
     import os
     import shutil
     ktight = None
-    for K, skip in ((2, False), (3, True), (3, False)):
+    for K, skip, share in ((2, False, False), (3, True, False), (3, False, True), (3, False, False)):
         wd = tlc.workdir('timed')
         try:
             with open(os.path.join(wd, 'MCTimed.tla'), 'w') as f:
                 f.write(tlc.mc_module('MCTimed', 'AdbTimed', dict(MC_Grid=tlc.Raw('{0-1, 0, 1, 2, 3, 5}'))))
-            cfg = tlc.cfg_text(constants={'Grid': '<- MC_Grid', 'None': '99', 'H': '2', 'PMax': '2', 'K': str(K), 'SkipTotal': 'TRUE' if skip else 'FALSE'}, invariants=['Bounded', 'Ordered', 'RightError'], deadlock=True)
+            cfg = tlc.cfg_text(constants={'Grid': '<- MC_Grid', 'None': '99', 'H': '2', 'PMax': '2', 'K': str(K), 'SkipTotal': 'TRUE' if skip else 'FALSE', 'SharePartTimer': 'TRUE' if share else 'FALSE'},
+                               invariants=['Bounded', 'Ordered', 'RightError', 'NotEarly'], deadlock=True)
             r = tlc.run('MCTimed', cfg, wd=wd, module_dir=wd)
         finally:
             shutil.rmtree(wd, ignore_errors=True)
-        ctx.add_tlc(r, 'AdbTimed K=%d%s' % (K, ' (sanity mutation: no whole-command check)' if skip else ''))
+        ctx.add_tlc(r, 'AdbTimed K=%d%s' % (K, ' (sanity mutation: no whole-command check)' if skip else (' (sanity mutation: one timer per packet)' if share else '')))
         names = [v['name'] for v in r.violations]
+        if share:
+            if 'NotEarly' not in names:
+                raise tlc.TlcError('vacuity: NotEarly must fail when header and payload share one timer')
+            continue
         if skip:
             if 'Bounded' not in names:
                 raise tlc.TlcError('vacuity: Bounded must fail when data packets skip the whole-command check')
